@@ -1,4 +1,6 @@
 """C15 - bench reader and writer are faithful."""
+import re
+
 from rv.gen import circuits as G
 from rv.oracle import sim
 from rv.oracle.sim import Net
@@ -67,7 +69,12 @@ def gen_text(rng, big):
         lines.append(("out", f"{'output' if lower_io else 'OUTPUT'}{ws(rng, 0.2)}({ws(rng)}{o}{ws(rng)})"))
     for name, kw, ops in gates:
         k = kw.lower() if (lower_kw if rng.random() < 0.8 else not lower_kw) else kw
-        args = f"{ws(rng)},{ws(rng)}".join(ops)
+        wrap = len(ops) > 1 and rng.random() < 0.12  # operand list continued on the next line(s)
+        args = ""
+        for j, o_ in enumerate(ops):
+            if j:
+                args += ws(rng) + "," + ("\n" + rng.choice(["  ", "\t", "      "]) if wrap and rng.random() < 0.7 else ws(rng))
+            args += o_
         lines.append(("gate", f"{name}{ws(rng, 0.7)}={ws(rng, 0.7)}{k}({ws(rng)}{args}{ws(rng)})"))
     for q, d in dffs:
         k = "dff" if rng.random() < 0.3 else "DFF"
@@ -87,7 +94,7 @@ def gen_text(rng, big):
         lead = rng.choice(["", " ", "\t", "    "]) if indent == "mixed" else indent
         text.append(lead + l + rng.choice(["", "", " ", "\t"]))
     eol = "\r\n" if rng.random() < 0.08 else "\n"  # files written on another platform
-    return {"text": eol.join(text) + (eol if rng.random() < 0.7 else ""), "ast": {"inputs": ins, "outputs": list(dict.fromkeys(outs)), "gates": gates, "dffs": dffs}, "order": order, "indent": indent}
+    return {"text": "\n".join(text).replace("\n", eol) + (eol if rng.random() < 0.7 else ""), "ast": {"inputs": ins, "outputs": list(dict.fromkeys(outs)), "gates": gates, "dffs": dffs}, "order": order, "indent": indent}
 
 
 def gen(rng, ctx):
@@ -115,6 +122,10 @@ def check_read(case, ctx):
     ok, c = ctx.call(cg.io.bench_to_circuit, case["text"], "bt")
     if "\r\n" in case["text"]:
         ctx.count("crlf_line_endings")
+    if re.search(r",\s*\n", case["text"]):
+        ctx.count("wrapped_operand_list")
+        if "\r\n" in case["text"]:
+            ctx.count("wrapped_operand_list_crlf")
     if len(case["text"]) % 4 == 0:
         from rv.props._util import repeat_call
 
@@ -294,7 +305,7 @@ def gates(counters, table, tier):
         for a in ("1", "2", "3"):
             if table.get(f"{t}/{a}", 0) < 3:
                 out.append(f"bench gate {t} with {a} operands seen {table.get(f'{t}/{a}', 0)} times")
-    for k in ("with_dff", "dff_chain", "kw:BUFF", "order:shuffled", "order:reverse", "write:with_constants", "write:no_constants", "write:constant_output", "write:input_output", "via_bench_file", "cmp:bench_roundtrip"):
+    for k in ("with_dff", "dff_chain", "kw:BUFF", "order:shuffled", "order:reverse", "write:with_constants", "write:no_constants", "write:constant_output", "write:input_output", "via_bench_file", "cmp:bench_roundtrip", "crlf_line_endings", "wrapped_operand_list", "wrapped_operand_list_crlf"):
         if counters.get(k, 0) < 5:
             out.append(f"{k} seen {counters.get(k, 0)} times")
     return out
